@@ -110,6 +110,13 @@ func TestTree(t *testing.T) {
 	})
 }
 
+// TestSideBySide: independent value trees marshalled and decoded on several goroutines at once.
+func TestSideBySide(t *testing.T) {
+	ev.Parallel(t, prop, "side-by-side", 6, 400, 120, func(t *rapid.T) amf0ref.Val {
+		return amf0x.Gen(t, amf0x.Opts{MaxDepth: 6, MaxNodes: 30, DistinctKeys: true})
+	}, checkTree)
+}
+
 func sampleOf(v amf0ref.Val) any {
 	b := amf0ref.Encode(v, amf0ref.Lib)
 	if len(b) > 96 {
@@ -564,6 +571,13 @@ func TestNearGrammarBytes(t *testing.T) {
 
 func replayers() map[string]ev.Replayer {
 	return map[string]ev.Replayer{
+		"side-by-side": func(raw json.RawMessage) error {
+			var v amf0ref.Val
+			if err := json.Unmarshal(raw, &v); err != nil {
+				return err
+			}
+			return checkTree(v)
+		},
 		"tree": func(raw json.RawMessage) error {
 			var v amf0ref.Val
 			if err := json.Unmarshal(raw, &v); err != nil {
